@@ -71,6 +71,8 @@ type runState struct {
 	intrinsicState
 	concFails []string
 	hashes    []hashRecord
+	intSide   []*Term
+	intSideChecked int
 }
 
 func (i *interpreter) replaying() bool { return i.dptr < len(i.w.decisions) }
@@ -179,9 +181,35 @@ func (i *interpreter) truth(v value) bool {
 // concreteInt64 requires an integer to be concrete.
 func (i *interpreter) concreteInt64(v value, what string) int64 {
 	if s, ok := v.(symv); ok {
-		panic(unsupported{"symbolic " + what + ": " + s.t.String()})
+		return i.concretize(s, what, 64)
 	}
 	return asInt64(v)
+}
+
+// concretize forks over the values 0..max of a symbolic integer (sizes and
+// lengths the code allocates by); any other feasible value is outside the
+// executor's reach and reported as such.
+func (i *interpreter) concretize(s symv, what string, max int) int64 {
+	eq := func(k int) *Term {
+		if s.t.sort == SInt {
+			return Eq(s.t, IntConst(int64(k)))
+		}
+		return Eq(s.t, BVConst(s.t.sort, uint64(k)))
+	}
+	k := i.decide("concretize:"+what, max+2, func(k int) *Term {
+		if k <= max {
+			return eq(k)
+		}
+		var cs []*Term
+		for j := 0; j <= max; j++ {
+			cs = append(cs, Not(eq(j)))
+		}
+		return And(cs...)
+	})
+	if k > max {
+		panic(unsupported{fmt.Sprintf("symbolic %s outside 0..%d: %s", what, max, s.t.String())})
+	}
+	return int64(k)
 }
 
 // indexOf resolves an index (panicking like Go on out-of-range).
@@ -393,6 +421,9 @@ func (i *interpreter) symBool(name string) value {
 // assertHolds is the deciding query: path-condition ∧ ¬c.
 func (i *interpreter) assertHolds(id string, c *Term) {
 	w := i.w
+	if id != "int-mode-faithful" {
+		i.checkIntSide()
+	}
 	w.noteAssert(i.harness, id)
 	if w.concrete != nil {
 		if c.IsFalse() {
